@@ -24,7 +24,10 @@ RULE = ("valid streams of every method (sequential, kd-tree, Edgebreaker standar
         'c9df685, 63027a3); the structure-aware bases include hand-built legacy 2.0-2.2 integer / float kd-tree '
         'streams (harness op legacykd; decoded by the Lean model too since DracoModel/KdTreeLegacy.lean), sequential / kd-tree point '
         'clouds spliced into one stream with 2..3 attributes decoders, and valence-traversal Edgebreaker streams '
-        'whose six per-context symbol counts are located by the model tag at:valence_context_count')
+        'whose six per-context symbol counts are located by the model tag at:valence_context_count'
+        '; multi-decoder streams are walked decoder by decoder, Edgebreaker decoder heads are copied / swapped '
+        '(eb_decoder_head_mutations), re-laid-out legacy meshes (props/meshlegacy.py) and last_corner_fan bases '
+        'are part of the foreign / structured families; the per-op watchdog counts CPU time')
 THEOREM_BACKED = ('DracoProps.C02: decode_total; decode_returns_status (decodeGeometrySeq) and decode_returns_status_with '
                   '(dispatcher with arbitrary disciplined body decoders); decode_some_ok_valid; decode_consumes_prefix / '
                   'consumed_le_length; unknown_major_rejected / unknown_minor_rejected (version gate, any body decoders); '
